@@ -275,20 +275,23 @@ func (j *joiner) processChunkAddresses(ctx context.Context, fn boson.AddressIter
 	for cursor := 0; cursor < len(data); cursor += j.refLength {
 
 		address := boson.NewAddress(data[cursor : cursor+j.refLength])
+		// the chunk's address is the hash part of the reference (an encrypted
+		// reference is hash ‖ decryption key); only the address is reported.
+		reportAddr := boson.NewAddress(address.Bytes()[:boson.HashSize])
 
-		if err := fn(address); err != nil {
+		if err := fn(reportAddr); err != nil {
 			return err
 		}
 
 		sec := subtrieSection(data, cursor, j.refLength, subTrieSize)
 		if sec <= boson.ChunkSize {
 			if j.allowSaveData {
-				j.dataChunks = append(j.dataChunks, address.Bytes())
+				j.dataChunks = append(j.dataChunks, reportAddr.Bytes())
 			}
 			continue
 		}
 
-		func(address boson.Address, eg *errgroup.Group) {
+		func(address, reportAddr boson.Address, eg *errgroup.Group) {
 			wg.Add(1)
 
 			eg.Go(func() error {
@@ -303,12 +306,12 @@ func (j *joiner) processChunkAddresses(ctx context.Context, fn boson.AddressIter
 				subtrieSpan := int64(chunkToSpan(ch.Data()))
 
 				if j.allowSaveEdge && subtrieSpan > int64(len(chunkData)) {
-					j.edgeChunks[address.String()] = ch.Data()
+					j.edgeChunks[reportAddr.String()] = ch.Data()
 				}
 
 				return j.processChunkAddresses(ectx, fn, chunkData, subtrieSpan)
 			})
-		}(address, eg)
+		}(address, reportAddr, eg)
 
 		wg.Wait()
 	}
